@@ -383,6 +383,10 @@ fn pre_op(op: &Value, dir: &str, cas: &[CaServer], ctl: &str) -> Result<Value, S
 			std::fs::write(&p, &data[..n.min(data.len())]).map_err(|e| format!("{e}"))?;
 			Ok(json!({"op": name, "orig_len": data.len()}))
 		}
+		"copy" => {
+			std::fs::copy(path_of("path"), path_of("target")).map_err(|e| format!("{e}"))?;
+			Ok(json!({"op": name}))
+		}
 		"ca_forget" => {
 			let ca_idx = op.get("ca").and_then(|v| v.as_u64()).unwrap_or(0) as usize;
 			let mut st = cas[ca_idx].state.lock().unwrap();
@@ -616,6 +620,18 @@ fn run_phase(phase: &Value, dir: &str, cas: &[CaServer], ctl: &str) -> Value {
 		}
 	}
 	out["pre"] = json!(pre_out);
+	let timed: Vec<(u64, PathBuf, PathBuf)> = phase
+		.get("timed")
+		.and_then(|v| v.as_array())
+		.map(|a| {
+			a.iter()
+				.map(|t| {
+					let p = |k: &str| Path::new(dir).join(t.get(k).and_then(|v| v.as_str()).unwrap_or(""));
+					(t.get("at_s").and_then(|v| v.as_u64()).unwrap_or(0), p("path"), p("target"))
+				})
+				.collect()
+		})
+		.unwrap_or_default();
 	let mode = phase
 		.get("mode")
 		.and_then(|v| v.as_str())
@@ -761,6 +777,14 @@ fn run_phase(phase: &Value, dir: &str, cas: &[CaServer], ctl: &str) -> Value {
 						.get("fsize_limit")
 						.and_then(|v| v.as_u64())
 						.map(super::grids::FsizeLimit::set);
+					// "timed": files copied at a given virtual time while the daemon runs (a deploy tool putting a file back)
+					for (at, from, to) in timed.iter().cloned() {
+						tokio::spawn(async move {
+							tokio::time::sleep(std::time::Duration::from_secs(at)).await;
+							let r = std::fs::copy(&from, &to);
+							log_event(json!({"ev": "timed_copy", "t": super::vnow_ms(), "ok": r.is_ok()}));
+						});
+					}
 					tokio::select! {
 						_ = srv.run() => { o["run"] = json!("returned"); }
 						_ = stop.notified() => {
